@@ -231,6 +231,42 @@ pub fn run(tier: Tier, rep: &mut Report) -> (String, String) {
             }
         }
     }));
+    // long needles and haystacks (needle 8..=17 bytes, t ..=33): the needle embedded at every offset of a filler, the same
+    // needle with one position changed (a near miss that must not match), a needle running over the end, and two
+    // overlapping occurrences - the shapes on which an unrolled / word-at-a-time matcher differs from a byte loop
+    if tier != Tier::Miri {
+        let maxn = tier.pick(17, 33, 0);
+        let mut pairs: Vec<(Vec<u8>, Vec<u8>)> = Vec::new();
+        for nl in 8..=maxn {
+            let needle: Vec<u8> = (0..nl).map(|i| b'b' + (i % 4) as u8).collect();
+            for at in [0usize, 1, 3, 7, 8, 9] {
+                let mut h = vec![b'a'; at];
+                h.extend_from_slice(&needle);
+                h.extend_from_slice(b"aa");
+                pairs.push((h.clone(), needle.clone()));
+                // near misses: one byte of the occurrence changed, at every position
+                for p in (0..nl).step_by(if nl > 12 { 2 } else { 1 }) {
+                    let mut hh = h.clone();
+                    hh[at + p] = b'z';
+                    pairs.push((hh, needle.clone()));
+                }
+                // two occurrences (find vs rfind)
+                let mut h2 = h.clone();
+                h2.extend_from_slice(&needle);
+                pairs.push((h2, needle.clone()));
+                // cut off at the end
+                pairs.push((h[..at + nl - 1].to_vec(), needle.clone()));
+            }
+            // self-overlapping long needle: "bcbcbcbc.." in a longer run
+            let rep2: Vec<u8> = (0..nl).map(|i| if i % 2 == 0 { b'b' } else { b'c' }).collect();
+            let mut run: Vec<u8> = (0..nl + 5).map(|i| if i % 2 == 0 { b'b' } else { b'c' }).collect();
+            pairs.push((run.clone(), rep2.clone()));
+            run[nl / 2] = b'x';
+            pairs.push((run, rep2));
+        }
+        bounds += &format!("long family: needles of 8..={maxn} bytes embedded at offsets 0,1,3,7,8,9, near misses at every position, double and cut-off occurrences, self-overlapping runs ({} pairs); ", pairs.len());
+        rep.merge(par_each(&pairs, n_threads(tier), |(h, n), r| one_pair(r, h, n)));
+    }
     rep.traces = rep.transitions;
 
     // ---- labelled sampling supplement (NOT the deciding step): random longer inputs
